@@ -157,12 +157,21 @@ func (vm *VM) directive(ctx context.Context, text *text, d Term) error {
 		text.goals = append(text.goals, arg(0))
 		return nil
 	case procedureIndicator{name: atomInclude, arity: 1}:
-		_, b, err := vm.open(arg(0), nil)
+		f, b, err := vm.open(arg(0), nil)
 		if err != nil {
 			return err
 		}
 
-		return vm.compile(ctx, text, string(b))
+		// A file that includes itself, directly or through other files, would never end.
+		for _, including := range text.including {
+			if including == f {
+				return permissionError(operationOpen, permissionTypeSourceSink, arg(0), nil)
+			}
+		}
+		text.including = append(text.including, f)
+		err = vm.compile(ctx, text, string(b))
+		text.including = text.including[:len(text.including)-1]
+		return err
 	case procedureIndicator{name: atomEnsureLoaded, arity: 1}:
 		return vm.ensureLoaded(ctx, arg(0), nil)
 	default:
@@ -228,6 +237,8 @@ type text struct {
 	buf     clauses
 	clauses map[procedureIndicator]*userDefined
 	goals   []Term
+
+	including []string // the files being included at the moment, outermost first
 }
 
 func (t *text) forEachUserDefined(pi Term, f func(u *userDefined)) error {
